@@ -697,7 +697,15 @@ func (se *symExec) execAssign(x *ast.AssignStmt, st *sstate) []*sstate {
 				continue
 			}
 			obj := se.info.Defs[id]
-			if obj == nil || se.assignCount(obj) != 1 || !isPurePath(x.Rhs[i]) {
+			if obj == nil || se.assignCount(obj) != 1 {
+				continue
+			}
+			if !isPurePath(x.Rhs[i]) {
+				// `last := is[len(is)-1]`: an element or field selected from values that are never assigned
+				// again is that selection under another name
+				if _, taken := se.params[obj]; !taken && se.stableSelection(x.Rhs[i]) {
+					se.params[obj] = se.canon(x.Rhs[i])
+				}
 				continue
 			}
 			if _, isId := unparen(x.Rhs[i]).(*ast.Ident); isId {
@@ -755,6 +763,55 @@ func noFlagLeaves(e ast.Expr) bool {
 		}
 	case *ast.CallExpr:
 		return true
+	}
+	return false
+}
+
+// stableSelection: an index or field selection built from parameters and single-assignment locals that are never
+// assigned afterwards, constants and len(): its value does not change while the function runs.
+func (se *symExec) stableSelection(e ast.Expr) bool {
+	switch x := unparen(e).(type) {
+	case *ast.IndexExpr:
+		// a selection from a slice or array held in a stable variable (not a map: maps change under the same name)
+		if tv, ok := se.info.Types[x.X]; ok {
+			switch tv.Type.Underlying().(type) {
+			case *types.Slice, *types.Array:
+			default:
+				return false
+			}
+		}
+		return se.stableOperand(x.X) && se.stableOperand(x.Index)
+	}
+	return false
+}
+
+func (se *symExec) stableOperand(e ast.Expr) bool {
+	switch x := unparen(e).(type) {
+	case *ast.BasicLit:
+		return true
+	case *ast.Ident:
+		if tv, ok := se.info.Types[x]; ok && tv.Value != nil {
+			return true
+		}
+		o := se.info.Uses[x]
+		if o == nil {
+			return false
+		}
+		if v, ok := o.(*types.Var); ok && !v.IsField() && v.Parent() != nil && v.Parent() != v.Pkg().Scope() {
+			return se.assignCount(o) <= 1
+		}
+		return false
+	case *ast.BinaryExpr:
+		switch x.Op {
+		case token.ADD, token.SUB:
+			return se.stableOperand(x.X) && se.stableOperand(x.Y)
+		}
+	case *ast.CallExpr:
+		if id := identOf(x.Fun); id != nil && id.Name == "len" && len(x.Args) == 1 {
+			if _, isB := se.info.Uses[id].(*types.Builtin); isB {
+				return se.stableOperand(x.Args[0])
+			}
+		}
 	}
 	return false
 }
